@@ -372,7 +372,7 @@ namespace BitSerializer::Convert::Utf
 					if constexpr (sizeof(TOutChar) == sizeof(char16_t))
 					{
 						// Do not copy only first part of surrogate pair
-						if (in == end && (sym >= UnicodeTraits::HighSurrogatesStart && sym < UnicodeTraits::HighSurrogatesEnd)) {
+						if (in == end && (sym >= UnicodeTraits::HighSurrogatesStart && sym <= UnicodeTraits::HighSurrogatesEnd)) {
 							return UtfEncodingResult(UtfEncodingErrorCode::UnexpectedEnd, startTailPos, 0);
 						}
 					}
@@ -442,7 +442,7 @@ namespace BitSerializer::Convert::Utf
 					TOutChar sym = *in;
 					++in;
 					// Do not copy only first part of surrogate pair
-					if (in == end && (sym >= UnicodeTraits::HighSurrogatesStart && sym < UnicodeTraits::HighSurrogatesEnd)) {
+					if (in == end && (sym >= UnicodeTraits::HighSurrogatesStart && sym <= UnicodeTraits::HighSurrogatesEnd)) {
 						return UtfEncodingResult(UtfEncodingErrorCode::UnexpectedEnd, startTailPos, 0);
 					}
 					outStr.push_back(sym);
